@@ -57,6 +57,14 @@ func runC05(l *core.Ledger) {
 		c05M8(l, r, rm, "C05-M8")
 	}
 	c05M9(l, eps, "C05-M9")
+	l.Rule("C05-M10", "a configuration lists each node once (C14-G2 re-run): the router map of a node has one entry per message id, so a node listed twice is handed the request twice, registers one router and answers it twice - the second answer is taken for another node's or dropped while the call counts the node twice")
+	l.With(map[string]string{"C14-G2": "C05-M10"}, func() {
+		for _, c := range findCtors(l, r) {
+			c14Ctor(l, r, c)
+		}
+	})
+	l.Rule("C05-M11", "the sender answers a request it does not send in its own iteration, under the id of the request it has just dequeued (C07-E3 re-run): an answer routed later (another goroutine, a shared variable) is routed under the id of whatever request was dequeued meanwhile")
+	l.With(map[string]string{"C07-E3": "C05-M11"}, func() { c07E3(l, r) })
 	c05M5(l, r)
 	c05M6(l, r, eps)
 	checkResponseProvenance(l, r, "C05-M7")
